@@ -26,7 +26,9 @@ def main():
         tests = t.stdout.strip().splitlines()[-1] if t.stdout.strip() else "no output"
     d = os.path.join(HERE, "seeded", name)
     os.makedirs(d, exist_ok=True)
-    open(os.path.join(d, "patch.diff"), "w").write(diff)
+    # bytes, not text: some sources have CRLF line ends and a text-mode round trip would drop the CRs (the patch would no longer apply)
+    raw = subprocess.run("git diff -- src", shell=True, cwd=wt, stdout=subprocess.PIPE).stdout
+    open(os.path.join(d, "patch.diff"), "wb").write(raw)
     for f in ("demo.py", "notes.md"):
         if os.path.exists(os.path.join(wt, f)):
             shutil.copy(os.path.join(wt, f), os.path.join(d, f))
